@@ -4,7 +4,7 @@ from . import props as P, gen
 
 NA_REASONS = {
     "C03": "deciding code is wasmparser's payload/section/operator readers interleaved inline with wirm's handlers in parse_internal/parse_comp; CBMC does not finish OperatorsReader::read on 6 symbolic bytes in 20 min and there is no wirm-owned unit to cut out; a fuzzer is the right tool, it is not this family (DESIGN.md section 6)",
-    "C04": "the hash seed reaches the output only through the iteration order of std HashMap; the one site where that order matters (ModuleTypes::new filling types_map) needs ModuleTypes::new on parsed types, which CBMC does not finish (741 s for one instance in the design round, > 30 min with symbolic types), and the map iterations inside the lowering run only natively, where a single process cannot vary the seed; see DESIGN.md section 6 for what was read from source",
+    "C04": "the hash seed reaches behaviour only through HashMap iteration order; the iteration sites were inventoried by the compiler (deprecation markers on the map model), but neither site on the way to the encoded bytes could be decided: a two-instance harness for ModuleTypes::new (two equal parsed types, both insertion orders) timed out at 2400 s twice, and a commutativity harness for the three `for (mode, ..) in map.iter() { resolve_bodies(..) }` loops of the lowering ran out of memory at 30 GB in three shapes (Operator::clone / Vec growth in inject_all); repeating native runs under different seeds would be sampling, not this family (DESIGN.md section 6; the defect read from source on the way is repaired, f06ef79)",
     "C12": "FunctionBuilder::finish_module clones the built body (Operator::clone): a harness that builds two instructions and finishes the function ran out of memory after 18 min; the reachable parts are claimed elsewhere (helpers C24, locals C14, add_local_func ids in K-ops / engine M, function types C13)",
     "C23": "the side-effect report is assembled by ~15 inline `if let Some(tag)` sites inside encode_internal between wasm-encoder calls and every record clones Vec<Operator>; Operator::clone alone exhausts CBMC (6-12 GB, no result in 7 min); no symbolic variable can be placed on the native side (DESIGN.md section 6)",
     "C26": "the deciding code (ComponentSubIterator::next/next_module) keeps per-module Vec metadata and skip lists inside maps and clones them on every module switch; with either HashMap model and even with concrete ids and skip lists CBMC's symbolic execution does not finish in 25 min for 2 modules x 2 functions (path explosion in slice::contains over the cloned Vec), and the same injections through ComponentIterator run out of memory (> 30 GB); comparing the outputs of the two iterator paths natively would be testing, not this family (DESIGN.md section 6)",
